@@ -45,6 +45,7 @@ pub fn block() -> impl Strategy<Value = Vec<HOp>> {
     prop_oneof![
         6 => work_block(gen::edit_r2()),
         3 => diverge_block(gen::edit_r1()),
+        3 => rewrite_scenario_block(gen::edit_r1()),
         3 => stash_block(gen::edit_r1()),
         8 => trap_block(),
         8 => destructive_op().prop_map(|o| vec![o]),
